@@ -1,1 +1,199 @@
+//! Declarative definitions of the SMT-LIB 2.6 string functions over Vec<u32>, written from the
+//! standard's text, and a grammar-level literal parser. Nothing here shares code with the crate.
 
+pub const MAXC: u32 = 0x2FFFF;
+
+pub fn concat(a: &[u32], b: &[u32]) -> Vec<u32> {
+    let mut v = a.to_vec();
+    v.extend_from_slice(b);
+    v
+}
+
+/// str.substr(w, m, n): w2 with w = w1 w2 w3, |w1| = m, |w2| = min(n, |w| - m) if 0 <= m < |w| and 0 < n; else empty
+pub fn substr(w: &[u32], m: i64, n: i64) -> Vec<u32> {
+    let len = w.len() as i64;
+    if 0 <= m && m < len && 0 < n {
+        let l = n.min(len - m);
+        w[m as usize..(m + l) as usize].to_vec()
+    } else {
+        vec![]
+    }
+}
+
+/// str.at(w, n) = str.substr(w, n, 1)
+pub fn at(w: &[u32], n: i64) -> Vec<u32> {
+    substr(w, n, 1)
+}
+
+pub fn prefixof(p: &[u32], w: &[u32]) -> bool {
+    p.len() <= w.len() && &w[..p.len()] == p
+}
+
+pub fn suffixof(s: &[u32], w: &[u32]) -> bool {
+    s.len() <= w.len() && &w[w.len() - s.len()..] == s
+}
+
+fn occurs_at(w: &[u32], t: &[u32], n: usize) -> bool {
+    n + t.len() <= w.len() && &w[n..n + t.len()] == t
+}
+
+/// str.contains(w, t): w = w1 t w3 for some w1, w3
+pub fn contains(w: &[u32], t: &[u32]) -> bool {
+    (0..=w.len()).any(|n| occurs_at(w, t, n))
+}
+
+/// str.indexof(w, t, i): least n >= i with an occurrence of t at n, provided 0 <= i <= |w|; else -1
+pub fn indexof(w: &[u32], t: &[u32], i: i64) -> i64 {
+    if i < 0 || i > w.len() as i64 {
+        return -1;
+    }
+    for n in (i as usize)..=w.len() {
+        if occurs_at(w, t, n) {
+            return n as i64;
+        }
+    }
+    -1
+}
+
+/// str.replace(w, t, r): first (leftmost) occurrence of t replaced by r; w if there is none
+pub fn replace(w: &[u32], t: &[u32], r: &[u32]) -> Vec<u32> {
+    for n in 0..=w.len() {
+        if occurs_at(w, t, n) {
+            let mut v = w[..n].to_vec();
+            v.extend_from_slice(r);
+            v.extend_from_slice(&w[n + t.len()..]);
+            return v;
+        }
+    }
+    w.to_vec()
+}
+
+/// str.replace_all(w, t, r): w if t is empty; otherwise u1 r replace_all(u2) at the leftmost occurrence
+pub fn replace_all(w: &[u32], t: &[u32], r: &[u32]) -> Vec<u32> {
+    if t.is_empty() {
+        return w.to_vec();
+    }
+    for n in 0..=w.len() {
+        if occurs_at(w, t, n) {
+            let mut v = w[..n].to_vec();
+            v.extend_from_slice(r);
+            v.extend(replace_all(&w[n + t.len()..], t, r));
+            return v;
+        }
+    }
+    w.to_vec()
+}
+
+pub fn lt(a: &[u32], b: &[u32]) -> bool {
+    a < b // Rust's slice order is the lexicographic order
+}
+
+pub fn le(a: &[u32], b: &[u32]) -> bool {
+    a <= b
+}
+
+pub fn is_digit(w: &[u32]) -> bool {
+    w.len() == 1 && (0x30..=0x39).contains(&w[0])
+}
+
+pub fn to_code(w: &[u32]) -> i64 {
+    if w.len() == 1 {
+        w[0] as i64
+    } else {
+        -1
+    }
+}
+
+pub fn from_code(x: i64) -> Vec<u32> {
+    if 0 <= x && x <= MAXC as i64 {
+        vec![x as u32]
+    } else {
+        vec![]
+    }
+}
+
+/// str.to_int as a big integer: None = not a numeral (-1 in SMT-LIB)
+pub fn to_int(w: &[u32]) -> Option<u128> {
+    if w.is_empty() || w.iter().any(|c| !(0x30..=0x39).contains(c)) {
+        return None;
+    }
+    let mut x: u128 = 0;
+    for &c in w {
+        x = x.saturating_mul(10).saturating_add((c - 0x30) as u128);
+    }
+    Some(x)
+}
+
+pub fn from_int(x: i64) -> Vec<u32> {
+    if x < 0 {
+        vec![]
+    } else {
+        x.to_string().chars().map(|c| c as u32).collect()
+    }
+}
+
+fn hexval(c: char) -> Option<u32> {
+    c.to_digit(16)
+}
+
+/// Grammar-level reading of an SMT-LIB 2.6 string literal body (without the enclosing quotes and with
+/// doubled quotes already undone): at each position try backslash-u + 4 hex digits, else \u{d0..d4} with value <= 0x2FFFF,
+/// else copy one character.
+pub fn parse_literal(text: &[char]) -> Vec<u32> {
+    let mut out = Vec::new();
+    let mut p = 0;
+    let n = text.len();
+    while p < n {
+        if text[p] == '\\' && p + 1 < n && text[p + 1] == 'u' {
+            // \u dddd
+            if p + 6 <= n && text[p + 2..p + 6].iter().all(|c| hexval(*c).is_some() && c.is_ascii()) {
+                let mut v = 0;
+                for c in &text[p + 2..p + 6] {
+                    v = v * 16 + hexval(*c).unwrap();
+                }
+                out.push(v);
+                p += 6;
+                continue;
+            }
+            // \u{d...}
+            if p + 2 < n && text[p + 2] == '{' {
+                let mut q = p + 3;
+                let mut v: u32 = 0;
+                let mut digits = 0;
+                while q < n && digits < 5 && text[q].is_ascii() && hexval(text[q]).is_some() {
+                    v = v * 16 + hexval(text[q]).unwrap();
+                    q += 1;
+                    digits += 1;
+                }
+                if digits >= 1 && q < n && text[q] == '}' && v <= MAXC {
+                    out.push(v);
+                    p = q + 1;
+                    continue;
+                }
+            }
+        }
+        out.push(text[p] as u32);
+        p += 1;
+    }
+    out
+}
+
+/// undo the doubling of quotes in a printed literal body; None if a lone quote occurs
+pub fn undouble_quotes(body: &[char]) -> Option<Vec<char>> {
+    let mut out = Vec::new();
+    let mut i = 0;
+    while i < body.len() {
+        if body[i] == '"' {
+            if i + 1 < body.len() && body[i + 1] == '"' {
+                out.push('"');
+                i += 2;
+            } else {
+                return None;
+            }
+        } else {
+            out.push(body[i]);
+            i += 1;
+        }
+    }
+    Some(out)
+}
